@@ -10,6 +10,7 @@ are left out.  In every non-test Go file under internal/ a statement
 
     x.Lock()        becomes   verifyield.Acquire(x.TryLock, x.Lock, "x")
     x.RLock()       becomes   verifyield.AcquireR(x.TryRLock, x.RLock, "x")
+    [defer] x.Unlock() / x.RUnlock()   become   [defer] verifyield.Release(x.Unlock) / (x.RUnlock)
     time.Sleep(d)   becomes   verifyield.Sleep(d)
     go func() { ... }() / go x.m()   become   verifyield.Go(func() { ... }) / verifyield.Go(x.m)
 
@@ -26,6 +27,7 @@ import sys
 
 SITE = re.compile(r"^(?P<ind>[ \t]*)(?P<recv>[A-Za-z_][\w\.]*(?:\(\))?(?:\.[\w]+)*)\.(?P<m>R?Lock)\(\)[ \t]*(?P<tail>//.*)?$", re.M)
 SKIP_RECV = re.compile(r"(^|\.)L$")  # sync.Locker (cond.L): no TryLock
+UNSITE = re.compile(r"^(?P<ind>[ \t]*)(?P<defer>defer )?(?P<recv>[A-Za-z_][\w\.]*(?:\(\))?(?:\.[\w]+)*)\.(?P<m>R?Unlock)\(\)[ \t]*(?P<tail>//.*)?$", re.M)
 IMPORT = 'import "github.com/AdguardTeam/AdGuardHome/internal/verifyield"\n'
 
 
@@ -44,6 +46,17 @@ def rewrite(text):
         return '%sverifyield.%s(%s.Try%s, %s.%s, "%s")%s' % (m.group("ind"), fn, recv, meth, recv, meth, recv, tail)
 
     out = SITE.sub(sub, text)
+
+    def unsub(m):
+        nonlocal n
+        recv = m.group("recv")
+        if SKIP_RECV.search(recv):
+            return m.group(0)
+        n += 1
+        tail = (" " + m.group("tail")) if m.group("tail") else ""
+        return "%s%sverifyield.Release(%s.%s)%s" % (m.group("ind"), m.group("defer") or "", recv, m.group("m"), tail)
+
+    out = UNSITE.sub(unsub, out)
     # go statements without arguments become verifyield.Go.
     lines = out.split("\n")
     i = 0
